@@ -32,6 +32,8 @@ const W_HALF_CLOSE_LOCAL_FIRST: u64 = 16;
 const W_HALF_CLOSE_PEER_FIRST: u64 = 32;
 const W_CREDIT_WAIT: u64 = 64;
 const W_STUCK_LOCAL_SINK: u64 = 1 << 20;
+const W_OPEN_ENDED_PEER: u64 = 1 << 21;
+const W_WRITE_ZERO: u64 = 1 << 22;
 const W_COALESCED: u64 = 128;
 
 #[derive(Default)]
@@ -65,6 +67,13 @@ struct Local {
     stuck_flush: bool,
     /// size of the default answer of fill_buf (3 bytes in the small scenarios)
     chunk: usize,
+    /// the local writer buffers: bytes accepted by `poll_write` reach the application only through a completed
+    /// `poll_flush` (or shutdown), like `BufWriter`/`BufStream` or a TLS stream
+    buffered: bool,
+    wbuf: Vec<u8>,
+    zero_writes: u32,
+    /// the local write side answers `Ok(0)` to a non-empty write from now on (a sink that takes nothing more)
+    write_zero: bool,
 }
 
 #[derive(Clone)]
@@ -174,18 +183,34 @@ impl AsyncWrite for Scripted {
             l.write_waker = Some(cx.waker().clone());
             return Poll::Pending;
         }
+        if l.write_zero {
+            l.zero_writes += 1;
+            if l.zero_writes > 10_000 {
+                // the bridge keeps offering the same bytes to a sink that takes none: it spins inside one poll
+                panic!("local poll_write answered Ok(0) 10000 times in a row: the bridge is spinning");
+            }
+            return Poll::Ready(Ok(0));
+        }
         // default: everything; alternatives: one byte, not ready, error
         let c = choose(&[Cost::Env, Cost::Env, Cost::Env, Cost::Env]);
         match c {
             0 => {
-                l.inn.extend_from_slice(buf);
+                if l.buffered {
+                    l.wbuf.extend_from_slice(buf);
+                } else {
+                    l.inn.extend_from_slice(buf);
+                }
                 Poll::Ready(Ok(buf.len()))
             }
             1 => {
                 if buf.len() > 1 {
                     l.partials += 1;
                 }
-                l.inn.push(buf[0]);
+                if l.buffered {
+                    l.wbuf.push(buf[0]);
+                } else {
+                    l.inn.push(buf[0]);
+                }
                 Poll::Ready(Ok(1))
             }
             2 => {
@@ -210,7 +235,11 @@ impl AsyncWrite for Scripted {
         }
         let c = choose(&[Cost::Env, Cost::Env, Cost::Env]);
         match c {
-            0 => Poll::Ready(Ok(())),
+            0 => {
+                let w = std::mem::take(&mut l.wbuf);
+                l.inn.extend_from_slice(&w);
+                Poll::Ready(Ok(()))
+            }
             1 => {
                 l.pendings += 1;
                 l.flush_waker = Some(cx.waker().clone());
@@ -233,6 +262,8 @@ impl AsyncWrite for Scripted {
         match c {
             0 => {
                 l.shutdown_ok = true;
+                let w = std::mem::take(&mut l.wbuf);
+                l.inn.extend_from_slice(&w);
                 Poll::Ready(Ok(()))
             }
             1 => {
@@ -272,27 +303,37 @@ struct Scn {
     stuck: &'static str,
     /// bytes handed out by a default fill_buf answer (0 = the usual 3)
     chunk: usize,
+    /// the local writer buffers until flushed
+    buffered: bool,
+    /// the local sink answers Ok(0) to every non-empty write
+    write_zero: bool,
 }
 
 fn scenarios(thorough: bool) -> Vec<Scn> {
     let p = |b: &[u8]| PeerEv::Push(b.to_vec());
     let mut v = vec![
-        Scn { name: "local->mux only", local_out: 5, peer: vec![PeerEv::Finish], peer_rwnd: 4, lazy_ack: false, stuck: "", chunk: 0 },
-        Scn { name: "mux->local only", local_out: 0, peer: vec![p(b"\xb1\xb2\xb3"), p(b"\xb4"), PeerEv::Finish], peer_rwnd: 4, lazy_ack: false, stuck: "", chunk: 0 },
-        Scn { name: "both directions", local_out: 4, peer: vec![p(b"\xb1\xb2"), p(b"\xb3\xb4\xb5"), PeerEv::Finish], peer_rwnd: 4, lazy_ack: false, stuck: "", chunk: 0 },
-        Scn { name: "credit exhausted (window 1, lazy acknowledgements)", local_out: 7, peer: vec![p(b"\xb1"), PeerEv::Finish], peer_rwnd: 1, lazy_ack: true, stuck: "", chunk: 0 },
-        Scn { name: "peer resets mid-transfer", local_out: 6, peer: vec![p(b"\xb1\xb2"), PeerEv::Reset], peer_rwnd: 2, lazy_ack: false, stuck: "", chunk: 0 },
+        Scn { name: "local->mux only", local_out: 5, peer: vec![PeerEv::Finish], peer_rwnd: 4, lazy_ack: false, stuck: "", chunk: 0, buffered: false, write_zero: false },
+        Scn { name: "mux->local only", local_out: 0, peer: vec![p(b"\xb1\xb2\xb3"), p(b"\xb4"), PeerEv::Finish], peer_rwnd: 4, lazy_ack: false, stuck: "", chunk: 0, buffered: false, write_zero: false },
+        Scn { name: "both directions", local_out: 4, peer: vec![p(b"\xb1\xb2"), p(b"\xb3\xb4\xb5"), PeerEv::Finish], peer_rwnd: 4, lazy_ack: false, stuck: "", chunk: 0, buffered: false, write_zero: false },
+        Scn { name: "credit exhausted (window 1, lazy acknowledgements)", local_out: 7, peer: vec![p(b"\xb1"), PeerEv::Finish], peer_rwnd: 1, lazy_ack: true, stuck: "", chunk: 0, buffered: false, write_zero: false },
+        Scn { name: "peer resets mid-transfer", local_out: 6, peer: vec![p(b"\xb1\xb2"), PeerEv::Reset], peer_rwnd: 2, lazy_ack: false, stuck: "", chunk: 0, buffered: false, write_zero: false },
     ];
-    v.push(Scn { name: "local application stops reading: local writes stay Pending", local_out: 5, peer: vec![p(b"\xb1\xb2"), p(b"\xb3")], peer_rwnd: 4, lazy_ack: false, stuck: "write", chunk: 0 });
-    v.push(Scn { name: "local application stops reading: local flush stays Pending", local_out: 5, peer: vec![p(b"\xb1\xb2"), p(b"\xb3")], peer_rwnd: 4, lazy_ack: false, stuck: "flush", chunk: 0 });
+    v.push(Scn { name: "local application stops reading: local writes stay Pending", local_out: 5, peer: vec![p(b"\xb1\xb2"), p(b"\xb3")], peer_rwnd: 4, lazy_ack: false, stuck: "write", chunk: 0, buffered: false, write_zero: false });
+    v.push(Scn { name: "local application stops reading: local flush stays Pending", local_out: 5, peer: vec![p(b"\xb1\xb2"), p(b"\xb3")], peer_rwnd: 4, lazy_ack: false, stuck: "flush", chunk: 0, buffered: false, write_zero: false });
+    // a local writer that buffers until it is flushed: what the bridge has accepted from the peer must reach the local
+    // application although the peer keeps its direction open (first: local EOF comes first; second: both ends finish)
+    v.push(Scn { name: "buffered local writer, peer keeps its direction open", local_out: 3, peer: vec![p(b"\xb1\xb2"), p(b"\xb3")], peer_rwnd: 4, lazy_ack: false, stuck: "", chunk: 0, buffered: true, write_zero: false });
+    v.push(Scn { name: "buffered local writer, both directions end", local_out: 4, peer: vec![p(b"\xb1\xb2"), p(b"\xb3"), PeerEv::Finish], peer_rwnd: 4, lazy_ack: false, stuck: "", chunk: 0, buffered: true, write_zero: false });
+    // a local sink that accepts nothing more (Ok(0) for a non-empty write): the bridge must end with an error, not spin
+    v.push(Scn { name: "local write answers Ok(0)", local_out: 2, peer: vec![p(b"\xb1"), PeerEv::Finish], peer_rwnd: 4, lazy_ack: false, stuck: "", chunk: 0, buffered: false, write_zero: true });
     // a Push frame without data among the peer's frames (well-formed; older senders emit it for a zero-length write):
     // it carries no bytes and is not the end of the stream
-    v.push(Scn { name: "peer sends an empty Push between data", local_out: 2, peer: vec![p(b"\xb1\xb2"), p(b""), p(b"\xb3"), PeerEv::Finish], peer_rwnd: 4, lazy_ack: false, stuck: "", chunk: 0 });
+    v.push(Scn { name: "peer sends an empty Push between data", local_out: 2, peer: vec![p(b"\xb1\xb2"), p(b""), p(b"\xb3"), PeerEv::Finish], peer_rwnd: 4, lazy_ack: false, stuck: "", chunk: 0, buffered: false, write_zero: false });
     // a fast local producer: three 50 000-byte reads are ready at once (frame size limits, per-frame credit)
-    v.push(Scn { name: "fast local producer, 150 000 B ready at once, window 1", local_out: 150_000, peer: vec![PeerEv::Finish], peer_rwnd: 1, lazy_ack: true, stuck: "", chunk: 50_000 });
+    v.push(Scn { name: "fast local producer, 150 000 B ready at once, window 1", local_out: 150_000, peer: vec![PeerEv::Finish], peer_rwnd: 1, lazy_ack: true, stuck: "", chunk: 50_000, buffered: false, write_zero: false });
     if thorough {
-        v.push(Scn { name: "peer finishes first, long local tail", local_out: 9, peer: vec![PeerEv::Finish], peer_rwnd: 2, lazy_ack: true, stuck: "", chunk: 0 });
-        v.push(Scn { name: "window overrun by bridge impossible: 3 pushes then finish", local_out: 2, peer: vec![p(b"\xb1"), p(b"\xb2"), p(b"\xb3"), PeerEv::Finish], peer_rwnd: 3, lazy_ack: true, stuck: "", chunk: 0 });
+        v.push(Scn { name: "peer finishes first, long local tail", local_out: 9, peer: vec![PeerEv::Finish], peer_rwnd: 2, lazy_ack: true, stuck: "", chunk: 0, buffered: false, write_zero: false });
+        v.push(Scn { name: "window overrun by bridge impossible: 3 pushes then finish", local_out: 2, peer: vec![p(b"\xb1"), p(b"\xb2"), p(b"\xb3"), PeerEv::Finish], peer_rwnd: 3, lazy_ack: true, stuck: "", chunk: 0, buffered: false, write_zero: false });
     }
     v
 }
@@ -308,7 +349,7 @@ fn exec(sc: &Scn, render: bool) -> RunOutput {
     let cfg = SideCfg { opts: opts(E_RWND, 1), rng: vec![] };
     let mut w = World::one(UNBOUNDED_CAP, 0, &cfg);
     let mut raw = Raw::new(1, w.sim.link.clone());
-    let local = Rc::new(RefCell::new(Local { out: (0..sc.local_out).map(|i| 0xa1u8.wrapping_add((i % 251) as u8)).collect(), chunk: if sc.chunk == 0 { 3 } else { sc.chunk }, stuck_write: sc.stuck == "write", stuck_flush: sc.stuck == "flush", ..Local::default() }));
+    let local = Rc::new(RefCell::new(Local { out: (0..sc.local_out).map(|i| 0xa1u8.wrapping_add((i % 251) as u8)).collect(), chunk: if sc.chunk == 0 { 3 } else { sc.chunk }, stuck_write: sc.stuck == "write", stuck_flush: sc.stuck == "flush", buffered: sc.buffered, write_zero: sc.write_zero, ..Local::default() }));
     let result = Rc::new(RefCell::new(BridgeResult(None)));
     {
         let mux = w.mux(0);
@@ -550,6 +591,12 @@ fn exec(sc: &Scn, render: bool) -> RunOutput {
             format!("the local {site} failed with {kind:?} but the bridge future did not complete in that poll nor woke itself: it only completes (if at all) when unrelated traffic wakes it; eventual result {:?}", res.0),
         );
     }
+    if sc.write_zero && l.err.is_none() && l.zero_writes > 0 {
+        match &res.0 {
+            Some(Err((k, _))) if *k == io::ErrorKind::WriteZero => wit |= W_WRITE_ZERO,
+            other => push_viol(&mut viol, "error.write-zero", format!("the local sink accepts no more bytes (poll_write returns Ok(0)); the bridge must complete with WriteZero, got {other:?}")),
+        }
+    }
     match (&l.err, &res.0) {
         (Some((site, kind)), r) => {
             wit |= W_ERR_INJECTED;
@@ -562,6 +609,17 @@ fn exec(sc: &Scn, render: bool) -> RunOutput {
                     &format!("error.not-prompt.{site}"),
                     format!("the local {site} failed with {kind:?}; nothing is left to run, deliver or become ready, yet the bridge future has not completed (it would need unrelated traffic to wake it)"),
                 ),
+            }
+        }
+        (None, None) if sc.stuck.is_empty() && !sc.peer.iter().any(|e| matches!(e, PeerEv::Finish | PeerEv::Reset)) => {
+            // the peer keeps its direction open, so the bridge cannot complete; everything it sent must have reached the
+            // local application all the same (a buffering local writer has to be flushed when the mux side goes idle)
+            wit |= W_OPEN_ENDED_PEER;
+            if l.inn != peer_sent {
+                push_viol(&mut viol, "relay.mux-to-local-not-flushed", format!("quiescent, the peer's direction still open: the peer sent {} and the bridge accepted them, but the local application has only got {} ({} byte(s) sit in the local writer's buffer, nothing will flush them)", hx(&peer_sent), hx(&l.inn), l.wbuf.len()));
+            }
+            if got_pushes != l.out || !finish_from_e {
+                push_viol(&mut viol, "relay.local-to-mux-incomplete", format!("quiescent with the peer's direction open: only {} of {} relayed, Finish sent={finish_from_e}", hx(&got_pushes), hx(&l.out)));
             }
         }
         (None, None) if !sc.stuck.is_empty() => {
@@ -605,7 +663,7 @@ fn exec(sc: &Scn, render: bool) -> RunOutput {
         }
         (None, Some(Err((k, msg)))) => {
             // without an injected local error the only legitimate failure is BrokenPipe after the peer's Reset
-            if !(peer_reset && *k == io::ErrorKind::BrokenPipe) {
+            if !(peer_reset && *k == io::ErrorKind::BrokenPipe) && !(sc.write_zero && *k == io::ErrorKind::WriteZero) {
                 push_viol(&mut viol, "bridge.spurious-error", format!("bridge failed with {k:?} ({msg}) although no local operation failed and the peer did not reset"));
             }
         }
@@ -659,7 +717,7 @@ pub fn run(args: &Args) -> Report {
         fault: 0,
         total_wall: Duration::from_secs(if thorough { 1500 } else { 50 }),
         max_execs_per_case: 20_000_000,
-        required_witnesses: W_PARTIAL_WRITE | W_PENDING | W_ERR_INJECTED | W_COMPLETED_OK | W_HALF_CLOSE_LOCAL_FIRST | W_HALF_CLOSE_PEER_FIRST | W_CREDIT_WAIT | W_COALESCED | W_STUCK_LOCAL_SINK,
+        required_witnesses: W_PARTIAL_WRITE | W_PENDING | W_ERR_INJECTED | W_COMPLETED_OK | W_HALF_CLOSE_LOCAL_FIRST | W_HALF_CLOSE_PEER_FIRST | W_CREDIT_WAIT | W_COALESCED | W_STUCK_LOCAL_SINK | W_OPEN_ENDED_PEER,
         adaptive: thorough,
         witness_names: &[
             ("partial_local_write", W_PARTIAL_WRITE),
@@ -671,11 +729,12 @@ pub fn run(args: &Args) -> Report {
             ("bridge_waited_for_credit", W_CREDIT_WAIT),
             ("two_reads_coalesced_in_one_frame", W_COALESCED),
             ("local_sink_stuck_other_direction_judged", W_STUCK_LOCAL_SINK),
+            ("peer_direction_left_open_delivery_judged", W_OPEN_ENDED_PEER),
         ],
     };
     rep.rule = "psim: real endpoint running MuxStream::into_copy_bidirectional_with_buf over a scripted AsyncBufRead+AsyncWrite; every call asks the explorer: fill_buf -> {3 bytes, 1 byte, Pending, Err} / at the end {EOF, Pending, Err}; write -> {all, 1 byte, Pending, Err}; flush, shutdown -> {Ok, Pending, Err}; a Pending becomes ready through a later explorer step. The multiplexor peer is a raw peer playing {data, Finish, Reset, prompt or withheld Acknowledge} as explorer steps. All runs with <= e non-default environment answers and <= k scheduling deviations. Oracle at every step: Push payloads on the wire are a prefix of consumed local bytes, bytes written locally are a prefix of the peer's Push payloads, frames <= window + returned credit, no spurious half-close; at quiescence: the bridge has completed (in the two scenarios whose local sink is stuck: the local->mux direction has relayed everything and sent Finish all the same); Ok((r,w)) only with everything relayed, Finish sent, local shutdown done and exact counts; after an injected Err the bridge has completed with that error without any further external event; credit == window + returned - frames".into();
     rep.assumptions = vec![
-        "a local write returning Ok(0) for a non-empty buffer is outside the alphabet (the bridge would spin; sockets do not do this)".into(),
+        "a local write returning Ok(0) for a non-empty buffer is not an environment ANSWER of the ordinary scenarios; one dedicated scenario has a sink that answers Ok(0) throughout and demands WriteZero".into(),
         "a Pending local operation eventually becomes ready (an execution ends only when nothing is enabled), except in the two 'local application stops reading' scenarios, where the local write (or flush) stays Pending for ever and only the opposite direction is judged".into(),
     ];
     run_cases(args, &mut rep, cases, &plan);
